@@ -13,7 +13,7 @@ def main():
     h = sys.argv[1]; params = sys.argv[2:]
     d = tempfile.mkdtemp(prefix="vpx_")
     try:
-        subprocess.run(["/verif/bin/vp", "explore", h] + params + ["workers=2", "querylog=" + d], capture_output=True, text=True, timeout=7200)
+        subprocess.run([os.environ.get("VP_BIN", "/verif/bin/vp"), "explore", h] + params + ["workers=2", "querylog=" + d], capture_output=True, text=True, timeout=7200)
         total = 0; bad = 0
         for f in sorted(glob.glob(d + "/*.smt2")):
             lines = open(f).read().splitlines()
